@@ -140,9 +140,10 @@ void ThreePointsNumericalDerivative::updateDerivatives(const ParameterList& upda
     }
 
 
+    // Parameters which are currently shifted away from the focus point (so far, the last one of the loop above):
+    string lastVar1 = lastVar, lastVar2 = lastVar;
     if (computeCrossD2_)
     {
-      string lastVar1, lastVar2;
       for (unsigned int i = 0; i < variables_.size(); i++)
       {
         string var1 = variables_[i];
@@ -162,17 +163,16 @@ void ThreePointsNumericalDerivative::updateDerivatives(const ParameterList& upda
           vector<string> vars(2);
           vars[0] = var1;
           vars[1] = var2;
-          if (i > 0 && j > 0)
-          {
-            if (lastVar1 != var1 && lastVar1 != var2)
-              vars.push_back(lastVar1);
-            if (lastVar2 != var1 && lastVar2 != var2)
-              vars.push_back(lastVar2);
-          }
+          // Also reset the parameters shifted by the previous computation:
+          if (lastVar1 != var1 && lastVar1 != var2)
+            vars.push_back(lastVar1);
+          if (lastVar2 != var1 && lastVar2 != var2 && lastVar2 != lastVar1)
+            vars.push_back(lastVar2);
           p = parameters.createSubList(vars);
 
-          double value1 = function_->getParameterValue(var1);
-          double value2 = function_->getParameterValue(var2);
+          // The focus point (the function itself may still be shifted):
+          double value1 = p[0].getValue();
+          double value2 = p[1].getValue();
           double h1 = (1. + std::abs(value1)) * h_;
           double h2 = (1. + std::abs(value2)) * h_;
 
@@ -219,7 +219,12 @@ void ThreePointsNumericalDerivative::updateDerivatives(const ParameterList& upda
     if (function2_)
       function2_->enableSecondOrderDerivatives(computeD2_);
     if (functionChanged)
-      function_->setParameters(parameters.createSubList(lastVar));
+    {
+      vector<string> vars(1, lastVar1);
+      if (lastVar2 != lastVar1)
+        vars.push_back(lastVar2);
+      function_->setParameters(parameters.createSubList(vars));
+    }
   }
   else
   {
